@@ -946,7 +946,17 @@ fn mutate(t: &Ty, target: &mut isize, kind: u8) -> Ty {
                     let mut a = args.clone();
                     for x in a.iter_mut() {
                         if let Arg::Const(c) = x {
-                            *c = if c == "8" { "9".into() } else { "8".into() };
+                            // (a neighbouring value of the same kind: booleans, characters and numbers alike)
+                            *c = match c.as_str() {
+                                "true" => "false".into(),
+                                "false" => "true".into(),
+                                "'x'" => "'y'".into(),
+                                "'y'" => "'x'".into(),
+                                "8" => "9".into(),
+                                "0" => "1".into(),
+                                "255" => "254".into(),
+                                _ => "8".into(),
+                            };
                             break;
                         }
                         if let Arg::Lt(l) = x {
